@@ -231,8 +231,20 @@ class Evaluator:
             return
         if isinstance(st, ast.Delete):
             for t in st.targets:
-                if self.store_hook is None or not self.store_hook(self, t, DELETED, env):
-                    raise Unsupported("del %s" % ast.unparse(t))
+                if self.store_hook is not None and self.store_hook(self, t, DELETED, env):
+                    continue
+                if isinstance(t, ast.Subscript):
+                    cont = self.eval(t.value, env)
+                    key = self.eval(t.slice, env)
+                    if isinstance(cont, dict):
+                        for kk in list(cont):
+                            if self.eq(kk, key):
+                                del cont[kk]
+                                break
+                        else:
+                            raise Raised("KeyError")
+                        continue
+                raise Unsupported("del %s" % ast.unparse(t))
             return
         if isinstance(st, ast.Break):
             raise _Break()
@@ -248,6 +260,23 @@ class Evaluator:
                 return
         if isinstance(target, ast.Name):
             env[target.id] = value
+        elif isinstance(target, ast.Subscript):
+            cont = self.eval(target.value, env)
+            key = self.eval(target.slice, env)
+            if isinstance(cont, dict):
+                for kk in list(cont):
+                    if self.eq(kk, key):
+                        cont[kk] = value
+                        return
+                if isinstance(key, AStr):
+                    key = key.concrete()
+                    if key is None:
+                        raise Unsupported("abstract string as dict key")
+                cont[key] = value
+            elif isinstance(cont, list) and isinstance(key, int):
+                cont[key] = value
+            else:
+                raise Unsupported("subscript store on %r" % (cont,))
         elif isinstance(target, (ast.Tuple, ast.List)):
             if not isinstance(value, (tuple, list)) or len(value) != len(target.elts):
                 raise Unsupported("unpacking at line %d" % target.lineno)
@@ -524,6 +553,17 @@ class Evaluator:
                 raise Raised("ValueError")
             if f.attr == "copy" and isinstance(recv, list) and not args:
                 return list(recv)
+            if f.attr == "pop" and isinstance(recv, dict) and 1 <= len(args) <= 2:
+                for kk in list(recv):
+                    if self.eq(kk, args[0]):
+                        return recv.pop(kk)
+                if len(args) == 2:
+                    return args[1]
+                raise Raised("KeyError")
+            if f.attr == "pop" and isinstance(recv, list) and len(args) <= 1:
+                if not recv:
+                    raise Raised("IndexError")
+                return recv.pop(args[0]) if args else recv.pop()
             if f.attr == "get" and isinstance(recv, dict) and 1 <= len(args) <= 2:
                 for kk, vv in recv.items():
                     if self.eq(kk, args[0]):
@@ -541,6 +581,11 @@ class Evaluator:
             args = [self.eval(a, env) for a in e.args]
             if f.id == "len" and len(args) == 1 and isinstance(args[0], (list, tuple, dict)):
                 return len(args[0])
+            if f.id == "int" and len(args) == 1 and isinstance(args[0], (int, str)) and not isinstance(args[0], bool):
+                try:
+                    return int(args[0])
+                except ValueError:
+                    return args[0]
             if f.id in ("list", "tuple") and len(args) == 1 and isinstance(args[0], (list, tuple)):
                 return list(args[0]) if f.id == "list" else tuple(args[0])
             if f.id == "str" and len(args) == 1 and isinstance(args[0], (str, AStr)):
